@@ -78,48 +78,75 @@ def assign (comp : Nat) (ctc cvc : Bool) : List Nat → St → List Nat → Opti
       assign comp ctc cvc rest ({ s.setV v fun x => { x with idx := some s.variableIndex } with variableIndex := s.variableIndex + 1 }) (acc ++ [v])
     | _ => none
 
+/-- first half of `check`: constant flags, dependencies, untracking of known variables, the initialised variables of a
+    fully determined equation when NLA systems are looked for -/
+def prepare (s : St) (e : E) (nla : Bool) : St × E × List Nat :=
+  let hasKnown := e.vars.any (isKnown s) || e.odes.any (isKnown s)
+  let hasNonConst := e.vars.any (isNonConstant s) || e.odes.any (isNonConstant s)
+  let e := { e with ctc := e.ctc && !hasKnown, cvc := e.cvc && !hasNonConst, deps := e.deps ++ e.vars.filter (isKnown s),
+                    vars := e.vars.filter (fun v => !isKnown s v), odes := e.odes.filter (fun v => !isKnownOde s v) }
+  let left := e.vars.length + e.odes.length
+  let inits := if nla && left = 0 then e.all.filter (fun v => (s.v v).ty = .initialised || (s.v v).ty = .initAlg) else []
+  (inits.foldl (fun s v => s.setV v fun x => { x with ty := .initAlg }) s, e, inits)
+
+/-- the type an equation gets from its lone unknown -/
+def eqType (s : St) (e : E) (unknownLeft : Option Nat) : ET :=
+  match unknownLeft with
+  | none => .nla
+  | some u =>
+    if !onLhsOrRhs s e u then .nla
+    else match (s.v u).ty with
+      | .state => .ode
+      | .ctc => .trueConstant
+      | .cvc => .varConstant
+      | _ => .algebraic
+
+theorem eqType_ne (s : St) (e : E) (u : Option Nat) : eqType s e u ≠ .unknown := by
+  unfold eqType
+  split
+  · simp
+  · split
+    · simp
+    · split <;> simp
+
+def unknownLeftOf (e : E) : Option Nat :=
+  if e.vars.length + e.odes.length = 1 then (if e.vars.isEmpty then e.odes.head? else e.vars.head?) else none
+
+/-- is something determined by this equation now? -/
+def goFlag (s : St) (e : E) (inits : List Nat) (nla : Bool) : Bool :=
+  (match unknownLeftOf e with
+    | some u => nla || onLhsOrRhs s e u
+    | none => false) || !inits.isEmpty
+
+def toAssign (e : E) (inits : List Nat) : List Nat :=
+  if e.vars.isEmpty then (if e.odes.isEmpty then inits else e.odes) else e.vars
+
+/-- second half of `check` -/
+def settle (s : St) (e : E) (inits : List Nat) (nla : Bool) : St × E × Bool :=
+  if nla && e.vars.length + e.odes.length = 0 && inits.isEmpty then
+    (e.all.foldl (fun s v => s.setV v fun x => { x with ty := .overconstrained }) s, e, false)
+  else if goFlag s e inits nla then
+    match assign e.comp e.ctc e.cvc (toAssign e inits) s [] with
+    | none => (s, e, false)      -- early `return false` (an uninitialised state, which makes the model invalid)
+    | some (s', unk) =>
+      (s', { e with ty := eqType s' e (unknownLeftOf e), unknowns := e.unknowns ++ unk, deps := e.deps.filter (fun d => !unk.contains d) }, true)
+  else (s, e, false)
+
+/-- the body of `AnalyserInternalEquation::check` for an untyped equation `e`: the new state (variables and
+    counters only), the updated equation and the "relevant check" flag -/
+def checkCore (s : St) (e : E) (nla : Bool) : St × E × Bool :=
+  let p := prepare s e nla
+  settle p.1 p.2.1 p.2.2 nla
+
 /-- `AnalyserInternalEquation::check` for equation `ei`; returns the new state and the "relevant check" flag -/
 def check (s : St) (ei : Nat) (nla : Bool) : St × Bool :=
   match s.eqs[ei]? with
   | none => (s, false)
   | some e =>
-    if e.ty ≠ .unknown then (s, false) else
-    let hasKnown := e.vars.any (isKnown s) || e.odes.any (isKnown s)
-    let hasNonConst := e.vars.any (isNonConstant s) || e.odes.any (isNonConstant s)
-    let ctc := e.ctc && !hasKnown
-    let cvc := e.cvc && !hasNonConst
-    let e := { e with ctc := ctc, cvc := cvc, deps := e.deps ++ e.vars.filter (isKnown s),
-                      vars := e.vars.filter (fun v => !isKnown s v), odes := e.odes.filter (fun v => !isKnownOde s v) }
-    let left := e.vars.length + e.odes.length
-    let inits := if nla && left = 0 then e.all.filter (fun v => (s.v v).ty = .initialised || (s.v v).ty = .initAlg) else []
-    let s := inits.foldl (fun s v => s.setV v fun x => { x with ty := .initAlg }) s
-    if nla && left = 0 && inits.isEmpty then
-      ((e.all.foldl (fun s v => s.setV v fun x => { x with ty := .overconstrained }) s).setE ei e, false)
+    if e.ty ≠ .unknown then (s, false)
     else
-      let unknownLeft : Option Nat := if left = 1 then (if e.vars.isEmpty then e.odes.head? else e.vars.head?) else none
-      let go := (match unknownLeft with
-        | some u => nla || onLhsOrRhs s e u
-        | none => false) || !inits.isEmpty
-      if go then
-        let variables := if e.vars.isEmpty then (if e.odes.isEmpty then inits else e.odes) else e.vars
-        match assign e.comp ctc cvc variables s [] with
-        | none =>
-          -- early return: the representative / type changes made so far are kept (they are in `assign`'s state, dropped
-          -- here: the only such path is an uninitialised state, which makes the model invalid)
-          (s.setE ei e, false)
-        | some (s, unk) =>
-          let ety : ET := match unknownLeft with
-            | none => .nla
-            | some u =>
-              if !onLhsOrRhs s e u then .nla
-              else match (s.v u).ty with
-                | .state => .ode
-                | .ctc => .trueConstant
-                | .cvc => .varConstant
-                | _ => .algebraic
-          let e := { e with ty := ety, unknowns := e.unknowns ++ unk, deps := e.deps.filter (fun d => !unk.contains d) }
-          (s.setE ei e, true)
-      else (s.setE ei e, false)
+      let r := checkCore s e nla
+      (r.1.setE ei r.2.1, r.2.2)
 
 /-- one sweep over all equations in order -/
 def sweep (s : St) (nla : Bool) : St × Bool :=
@@ -196,15 +223,40 @@ def modelType (s : St) : MT :=
     let hasNla := s.eqs.any fun e => e.ty = .nla
     if hasOde then (if hasNla then .dae else .ode) else (if hasNla then .nla else .algebraic)
 
+/-- how a class is numbered in the analysed model -/
+inductive Slot | state | variable | none
+  deriving DecidableEq, Repr
+
+def slot (v : V) : Slot :=
+  if v.ext then .variable
+  else match v.ty with
+    | .state => .state
+    | .constant | .ctc | .cvc | .algebraic | .initAlg => .variable
+    | _ => .none
+
 /-- the indices of the `AnalyserVariable`s: classes in creation order, states and the other variables counted separately,
     the variable of integration skipped -/
-def finalIndices (vs : List V) : List (Option Nat) :=
-  (vs.foldl (fun (acc : List (Option Nat) × Nat × Nat) v =>
-    let (out, si, vi) := acc
-    if v.ext then (out ++ [some vi], si, vi + 1)
-    else match v.ty with
-      | .state => (out ++ [some si], si + 1, vi)
-      | .constant | .ctc | .cvc | .algebraic | .initAlg => (out ++ [some vi], si, vi + 1)
-      | _ => (out ++ [none], si, vi)) ([], 0, 0)).1
+def idxFrom (si vi : Nat) : List V → List (Option Nat)
+  | [] => []
+  | v :: r =>
+    match slot v with
+    | .state => some si :: idxFrom (si + 1) vi r
+    | .variable => some vi :: idxFrom si (vi + 1) r
+    | .none => none :: idxFrom si vi r
+
+def finalIndices (vs : List V) : List (Option Nat) := idxFrom 0 0 vs
+
+/-- the loop with an explicit "ran out of fuel" outcome, to state that `fuelFor` is enough -/
+def loopO : Nat → St → Nat → Bool → Option St
+  | 0, _, _, _ => none
+  | fuel + 1, s, loopNumber, nla =>
+    let (s, relevant) := sweep s nla
+    if relevant then loopO fuel s loopNumber nla
+    else if loopNumber = 1 || loopNumber = 3 then loopO fuel s (loopNumber + 1) true
+    else if loopNumber = 2 then
+      let hasExt := s.vars.any (·.ext)
+      let s := { s with vars := s.vars.map fun x => if x.ext && x.ty = .unknown then { x with ty := .initialised } else x }
+      if hasExt then loopO fuel s 3 false else some s
+    else some s
 
 end Cellml.Analyser
